@@ -131,6 +131,7 @@ type Sched struct {
 	enbuf     []*G
 	inhibit   int
 	curWhat   string
+	unbuf     map[uintptr]*[]*offer
 }
 
 // S is the active scheduler (nil = pass-through mode).
